@@ -643,7 +643,7 @@ def run(rep):
     rep.floor("R-C03-provision", 15)
     rep.floor("R-C03-kernel-bounds", 7)
     rep.floor("R-C03-window", 10)
-    rep.floor("R-C13-report", 11)
+    rep.floor("R-C13-report", 12)
     rep.floor("R-C13-order", 28)
     rep.clause("R-C03-guard", "each of the 4 kernel wrappers asserts index+length < wave.len() and subindex < nbr_sincs before its unsafe code; those fields are the dimensions given to make_sincs; sinc_len % 8 == 0 asserted")
     rep.clause("R-C03-kernel-bounds", "given the asserts, every get_unchecked / SIMD load in the 7 kernels stays inside wave[index..index+length) and the packed table")
